@@ -371,3 +371,33 @@ Definition list_nodes (l : list node) : list node := fold_right ins_node [] l.
 (* syncShards: listNodesFromCache, then CalculateShardAssignments *)
 Definition sync_assignments (nodes : list node) (m : metrics) (specs : list sspec) :=
   assignments (list_nodes nodes) m specs.
+
+(* ------------------------------------------------------------------ *)
+(* 4. One manager, many reconciles                                      *)
+(* ------------------------------------------------------------------ *)
+
+(* what a ShardingManager holds after NewShardingManager: the configs (names, in
+   order) with the policy chain cached for each name.  CalculateShardAssignments
+   reads it and writes nothing back: every reconcile fetches the provider's
+   metrics anew and starts from an empty assignedNodes map. *)
+Definition manager := list (Z * list rpol).
+
+Definition new_manager (specs : list sspec) : option manager :=
+  if valid_config specs
+  then Some (map (fun s => (ss_name s, chain_of specs (ss_name s))) specs)
+  else None.
+
+Definition reconcile (mg : manager) (nodes : list node) (m : metrics) : manager * list (Z * list positive) :=
+  (mg, final_map (st_results (calc nname nodes (map (fun c => (fst c, to_gchain (mlookup m) (snd c))) mg)))).
+
+Fixpoint run_history (mg : manager) (steps : list (list node * metrics)) : list (list (Z * list positive)) :=
+  match steps with
+  | [] => []
+  | (ns, m) :: r => let '(mg', out) := reconcile mg ns m in out :: run_history mg' r
+  end.
+
+Definition history (specs : list sspec) (steps : list (list node * metrics)) :=
+  match new_manager specs with
+  | None => None
+  | Some mg => Some (run_history mg steps)
+  end.
